@@ -285,13 +285,17 @@ const U_META: Url = Url {
 const U_META_UP: Url = Url { text: "/Metadata/Instance?API-Version=2018-02-01", path: "/Metadata/Instance", pairs: &[("API-Version", "2018-02-01")] };
 const U_ROOT: Url = Url { text: "/", path: "/", pairs: &[] };
 const U_OTHER: Url = Url { text: "/other?comp=goalstate", path: "/other", pairs: &[("comp", "goalstate")] };
+// a parameter's value is everything after the FIRST '=' of the pair: values containing '=' (base64 padding, nested k=v)
+const U_EQ_TAIL: Url = Url { text: "/machine?comp=goalstate=extra", path: "/machine", pairs: &[("comp", "goalstate=extra")] };
+const U_EQ_PAD: Url = Url { text: "/machine?comp=GoalState==", path: "/machine", pairs: &[("comp", "GoalState==")] };
+const U_EQ_HEAD: Url = Url { text: "/machine?comp==goalstate&type=x", path: "/machine", pairs: &[("comp", "=goalstate"), ("type", "x")] };
 const U_EXTRA: Url = Url { text: "/machine?comp=goalstate&extra", path: "/machine", pairs: &[("comp", "goalstate"), ("extra", "")] };
 
 #[test]
 fn console_vxw_c02() {
     let mut ctx = Ctx { cases: 0, fails: 0 };
     let all_urls: Vec<&Url> = vec![
-        &U_GS, &U_GS_UP, &U_PLUG, &U_MACHINEX, &U_NOQ, &U_VERSIONS, &U_KEYONLY, &U_TYPE, &U_SHORT, &U_ABS, &U_META, &U_META_UP, &U_ROOT, &U_OTHER, &U_EXTRA,
+        &U_GS, &U_GS_UP, &U_PLUG, &U_MACHINEX, &U_NOQ, &U_VERSIONS, &U_KEYONLY, &U_TYPE, &U_SHORT, &U_ABS, &U_META, &U_META_UP, &U_ROOT, &U_OTHER, &U_EXTRA, &U_EQ_TAIL, &U_EQ_PAD, &U_EQ_HEAD,
     ];
 
     // ---- A. privilege matching: rule paths x rule query parameters x requests (upper/lower case on both sides) ----------
